@@ -1,10 +1,12 @@
 import value_common as vc
-from props_common import TRUSTED_COMMON
+from props_common import GEN_ITERS_TRUST, TRUSTED_COMMON
 
 PROP = {
-    "lean_targets": ["MultiProofs.C06"],
+    "generators": [{"script": "gen_iters.py"}],
+    "lean_targets": ["MultiProofs.C06", "MultiProofs.GenTieIter"],
     "lean_module": "MultiProofs.C06",
     "theorems": [
+        "Multi.GenTieIter.X_eq_tie",
         "Multi.C06.reextent_extents",
         "Multi.C06.reextent_noop",
         "Multi.C06.reextent_noop_pool",
@@ -19,7 +21,7 @@ PROP = {
     ],
     "harnesses": [vc.value_harness(["int+c06", "str+c06", "int+c06+full", "str+c06+full"], 4000, 160000)],
     "hooks": ["compile_probes", "op_histogram"],
-    "trusted_base": TRUSTED_COMMON + [
+    "trusted_base": TRUSTED_COMMON + GEN_ITERS_TRUST + [
         "element conversions between the two element types of the run (long -> int, int -> Str) are the identity on the integer image",
         "harness/value.cpp's reference model (extents + flat std::vector, written from the documentation) as a second oracle inside the run",
     ],
